@@ -65,7 +65,10 @@ func (f *capFormat) ValidateSchema(format string, content []byte, decl *transfor
 	return rt, err
 }
 
-type idLog struct{ ids []int64 }
+type idLog struct {
+	ids []int64 // record nodes
+	all []int64 // every node of every record tree handed out
+}
 
 func (f *capFormat) CreateFormatReader(name string, input io.Reader, rt interface{}) (fileformat.FormatReader, error) {
 	r, err := f.inner.CreateFormatReader(name, input, rt)
@@ -94,6 +97,14 @@ func (r *capReader) Read() (*idr.Node, error) {
 	n, err := r.inner.Read()
 	if n != nil && r.log != nil {
 		r.log.ids = append(r.log.ids, n.ID)
+		var walk func(x *idr.Node)
+		walk = func(x *idr.Node) {
+			r.log.all = append(r.log.all, x.ID)
+			for c := x.FirstChild; c != nil; c = c.NextSibling {
+				walk(c)
+			}
+		}
+		walk(n)
 	}
 	return n, err
 }
@@ -269,6 +280,30 @@ const jsSchema2 = `{"parser_settings": {"version": "omni.2.1", "file_format_type
    "id": {"custom_func": {"name": "javascript_with_context", "args": [{"const": "var n = JSON.parse(_node); n.s + ':' + n.v"}]}}
  }}}}`
 
+const ctxSchema = `{"parser_settings": {"version": "omni.2.1", "file_format_type": "json"},
+ "transform_declarations": {"FINAL_OUTPUT": {"xpath": "/*", "object": {
+   "node": {"custom_func": {"name": "javascript_with_context", "args": [{"const": "_node"}]}},
+   "v": {"xpath": "v", "custom_func": {"name": "javascript_with_context", "args": [{"const": "_node"}]}},
+   "s": {"xpath": "s", "custom_func": {"name": "javascript_with_context", "args": [{"const": "_node"}]}},
+   "t": {"xpath": "t", "custom_func": {"name": "javascript_with_context", "args": [{"const": "_node + '|' + k"}, {"const": "k"}, {"xpath": "../v"}]}}
+ }}}}`
+
+// args named like built-in globals: the shadow / restore path of execProgram
+const shadowSchema = `{"parser_settings": {"version": "omni.2.1", "file_format_type": "json"},
+ "transform_declarations": {"FINAL_OUTPUT": {"xpath": "/*", "object": {
+   "sh": {"custom_func": {"name": "javascript", "args": [{"const": "JSON + ':' + Math"}, {"const": "JSON"}, {"xpath": "s"}, {"const": "Math"}, {"xpath": "v", "type": "int"}]}},
+   "sh2": {"custom_func": {"name": "javascript", "args": [{"const": "Object + (typeof Date) + parseInt"}, {"const": "Object"}, {"xpath": "w"}, {"const": "parseInt"}, {"xpath": "v"}]}},
+   "sh3": {"custom_func": {"name": "javascript", "args": [{"const": "Math * 2"}, {"const": "Math"}, {"xpath": "v", "type": "int"}]}}
+ }}}}`
+
+// scripts that USE those built-ins, on whatever pooled VM they get
+const usersSchema = `{"parser_settings": {"version": "omni.2.1", "file_format_type": "json"},
+ "transform_declarations": {"FINAL_OUTPUT": {"xpath": "/*", "object": {
+   "u1": {"custom_func": {"name": "javascript", "args": [{"const": "JSON.stringify({a: Math.max(v, 3), s: s})"}, {"const": "v"}, {"xpath": "v", "type": "int"}, {"const": "s"}, {"xpath": "s"}]}},
+   "u2": {"custom_func": {"name": "javascript", "args": [{"const": "Math.floor(w) + ':' + JSON.parse(j).x + ':' + parseInt(v, 10) + ':' + Object.keys({q: 1}).length"}, {"const": "w"}, {"xpath": "w", "type": "float"}, {"const": "j"}, {"const": "{\"x\":1}"}, {"const": "v"}, {"xpath": "v"}]}},
+   "u3": {"custom_func": {"name": "javascript_with_context", "args": [{"const": "JSON.parse(_node).v + ':' + Math.abs(-1)"}]}}
+ }}}}`
+
 const xpathSchema = `{"parser_settings": {"version": "omni.2.1", "file_format_type": "xml"},
  "transform_declarations": {"FINAL_OUTPUT": {"xpath": "/r/n[matches(a, '^[a-zQx日hz0w]')]", "object": {
    "a": {"xpath": "a"},
@@ -325,7 +360,7 @@ func nextName(prefix string) string {
 
 // runJob drives one Transform to its terminal result; the transcript has every Read result
 // (output bytes or error text) and every record's checksum.
-func runJob(ss *sharedSchema, in []byte) (transcript []string, ids []int64) {
+func runJob(ss *sharedSchema, in []byte) (transcript []string, ids []int64, all []int64) {
 	defer func() {
 		if p := recover(); p != nil {
 			transcript = append(transcript, fmt.Sprintf("PANIC: %v", p))
@@ -337,18 +372,18 @@ func runJob(ss *sharedSchema, in []byte) (transcript []string, ids []int64) {
 	defer logs.Delete(name)
 	t, err := ss.Schema.NewTransform(name, bytes.NewReader(in), &transformctx.Ctx{})
 	if err != nil {
-		return []string{"NewTransform: " + strings.ReplaceAll(err.Error(), name, "IN")}, nil
+		return []string{"NewTransform: " + strings.ReplaceAll(err.Error(), name, "IN")}, nil, nil
 	}
 	for i := 0; i < 10000; i++ {
 		b, err := t.Read()
 		if err == io.EOF {
 			transcript = append(transcript, "EOF")
-			return transcript, log.ids
+			return transcript, log.ids, log.all
 		}
 		if err != nil {
 			transcript = append(transcript, "ERR: "+strings.ReplaceAll(err.Error(), name, "IN"))
 			if !errs.IsErrTransformFailed(err) {
-				return transcript, log.ids
+				return transcript, log.ids, log.all
 			}
 			continue
 		}
@@ -361,10 +396,11 @@ func runJob(ss *sharedSchema, in []byte) (transcript []string, ids []int64) {
 		transcript = append(transcript, line)
 	}
 	transcript = append(transcript, "NO-TERMINAL-RESULT")
-	return transcript, log.ids
+	return transcript, log.ids, log.all
 }
 
 type mixDesc struct {
+	Kind       string   `json:"kind"` // mixed | contention
 	Procs      int      `json:"gomaxprocs"`
 	Goroutines int      `json:"goroutines"`
 	NodePool   bool     `json:"node_pool"`
@@ -397,17 +433,71 @@ func buildWorkload(sum *vh.Summary) *workload {
 	add("js", jsSchema, genJSInput)
 	add("js2", jsSchema2, genJSInput)
 	add("xpath", xpathSchema, genXMLInput)
+	add("ctx", ctxSchema, genJSInput)
+	add("shadow", shadowSchema, genJSInput)
+	add("users", usersSchema, genJSInput)
 	return w
 }
 
 // one concurrent mix; returns failures (what, detail) and the per-goroutine record-node ID sequences
+var curOpts *vh.Opts
+
 func runMix(r *vh.Rng, w0 *workload, tier string) (desc mixDesc, fails [][2]string, seqs [][]int64, c0, c1 int64) {
 	desc = genMix(r, w0)
+	if curOpts != nil {
+		vh.Current(curOpts, desc) // if the process dies in this mix, this is the failing input
+	}
 	fails, seqs, c0, c1 = execMix(desc, w0)
 	return
 }
 
+// contention mixes: many goroutines, GOMAXPROCS 16, many small records, all of them through the
+// JavaScript schemas - node IDs key NodeToJSONCache (a transform must never see another
+// transform's record in _node), args named like built-ins run the shadow/restore path while
+// other goroutines use the same built-ins on pooled VMs
+func genContention(r *vh.Rng, w *workload) (desc mixDesc) {
+	desc.Kind = "contention"
+	desc.Procs = 16
+	desc.Goroutines = r.Between(8, 16)
+	desc.NodePool = r.Chance(0.5)
+	desc.JSCache = []string{"default", "default", "capacity-one"}[r.Pick(3)]
+	var pick []int
+	for i, s := range w.schemas {
+		desc.Schemas = append(desc.Schemas, s.Name)
+		switch s.Name {
+		case "ctx", "shadow", "users", "js":
+			pick = append(pick, i)
+		}
+	}
+	flavour := r.Pick(3) // 0: node IDs / _node, 1: shadowing vs users, 2: everything
+	desc.Jobs = make([][]job, desc.Goroutines)
+	for g := 0; g < desc.Goroutines; g++ {
+		for k := 0; k < 2; k++ {
+			si := pick[r.Pick(len(pick))]
+			name := ""
+			switch flavour {
+			case 0:
+				name = "ctx"
+			case 1:
+				name = []string{"shadow", "users"}[(g+k)%2]
+			}
+			for _, i := range pick {
+				if w.schemas[i].Name == name {
+					si = i
+				}
+			}
+			in := w.gen[si](r, r.Between(15, 40))
+			desc.Jobs[g] = append(desc.Jobs[g], job{Schema: si, Label: w.schemas[si].Name, Input: in, InHex: hex.EncodeToString(in)})
+		}
+	}
+	return
+}
+
 func genMix(r *vh.Rng, w *workload) (desc mixDesc) {
+	if r.Chance(0.3) {
+		return genContention(r, w)
+	}
+	desc.Kind = "mixed"
 	desc.Procs = []int{1, 2, 16}[r.Pick(3)]
 	desc.Goroutines = r.Between(2, 16)
 	desc.NodePool = r.Chance(0.6)
@@ -464,6 +554,7 @@ func execMix(desc mixDesc, w0 *workload) (fails [][2]string, seqs [][]int64, c0,
 	c0 = idr.VerifNodeIDCounter()
 	got := make([][][]string, desc.Goroutines)
 	seqs = make([][]int64, desc.Goroutines)
+	allIDs := make([][]int64, desc.Goroutines)
 	var wg sync.WaitGroup
 	start := make(chan struct{})
 	for g := 0; g < desc.Goroutines; g++ {
@@ -472,9 +563,10 @@ func execMix(desc mixDesc, w0 *workload) (fails [][2]string, seqs [][]int64, c0,
 			defer wg.Done()
 			<-start
 			for _, j := range desc.Jobs[g] {
-				tr, ids := runJob(w.schemas[j.Schema], j.Input)
+				tr, ids, all := runJob(w.schemas[j.Schema], j.Input)
 				got[g] = append(got[g], tr)
 				seqs[g] = append(seqs[g], ids...)
+				allIDs[g] = append(allIDs[g], all...)
 			}
 		}(g)
 	}
@@ -488,10 +580,28 @@ func execMix(desc mixDesc, w0 *workload) (fails [][2]string, seqs [][]int64, c0,
 		return
 	}
 	c1 = idr.VerifNodeIDCounter()
+	// every node the readers handed out during the mix has its own ID (node IDs key the
+	// transform result cache and NodeToJSONCache: two live nodes with one ID see each other's data)
+	owner := map[int64]int{}
+	total := 0
+	for g := range allIDs {
+		for _, id := range allIDs[g] {
+			total++
+			if g0, dup := owner[id]; dup {
+				fails = append(fails, [2]string{"two nodes handed out by the readers during one concurrent mix carry the same node ID",
+					fmt.Sprintf("ID %d: goroutine %d and goroutine %d (of %d node IDs observed; counter %d -> %d)", id, g0, g, total, c0, c1)})
+				break
+			}
+			owner[id] = g
+		}
+		if len(fails) > 0 {
+			break
+		}
+	}
 	// ---- each transform alone (fresh Schema objects, nothing else running) ----
 	for g := range desc.Jobs {
 		for _, j := range desc.Jobs[g] {
-			tr, _ := runJob(wAlone.schemas[j.Schema], j.Input)
+			tr, _, _ := runJob(wAlone.schemas[j.Schema], j.Input)
 			expected[g] = append(expected[g], tr)
 		}
 	}
@@ -610,7 +720,7 @@ func main() {
 	r := vh.NewRng(o.Seed)
 	if *raceChild {
 		w := buildWorkload(nil)
-		n := o.Count(50, 1500)
+		n := o.Count(24, 800)
 		bad := 0
 		for i := 0; i < n; i++ {
 			_, fails, _, _, _ := runMix(r, w, o.Tier)
@@ -643,8 +753,16 @@ func main() {
 				if len(text) > 6000 {
 					text = text[:6000]
 				}
+				var failing interface{} = map[string]interface{}{"seed": o.Seed, "tier": o.Tier, "n": o.N}
+				if cb, cerr := os.ReadFile(filepath.Join(o.Out, "current.json")); cerr == nil {
+					var d mixDesc
+					if json.Unmarshal(cb, &d) == nil && len(d.Jobs) > 0 {
+						failing = d // the concurrent mix that was running
+					}
+				}
 				sum.Fail("the process died with a fatal runtime error while transforms ran concurrently (unsynchronised access to shared state)",
-					map[string]interface{}{"seed": o.Seed, "tier": o.Tier, "n": o.N}, text)
+					failing, text)
+				vh.Done(o)
 				sum.Write(o)
 				return
 			}
@@ -654,18 +772,19 @@ func main() {
 		"concurrent mixes: N in 2..16 goroutines, each driving 1..3 Transforms over shared Schema objects (seven formats, javascript, xpath with regexps/dynamic xpaths/templates), GOMAXPROCS in {1,2,16}, node pool on/off, JS caches default/capacity one/off; non-trivial = at least two goroutines share one Schema object (always); distinct by (config, jobs)")
 	cw := vh.NewCaseWriter(o, "C14", "Model.Js Model.Conc", "ccase", "check_case")
 	w := buildWorkload(sum)
+	curOpts = o
 	if o.Replay != "" {
 		replay(o, w)
 		sum.Write(o)
 		return
 	}
-	total := o.Count(150, 6000)
+	total := o.Count(100, 4000)
 	{ // what the workload looks like: the first results of each schema run alone
 		r0 := vh.NewRng(o.Seed + 7777)
 		sample := map[string][]string{}
 		okc := 0
 		for i, ss := range w.schemas {
-			tr, _ := runJob(ss, w.gen[i](r0, 6))
+			tr, _, _ := runJob(ss, w.gen[i](r0, 6))
 			for _, l := range tr {
 				if strings.HasPrefix(l, "OK: ") {
 					okc++
@@ -704,6 +823,7 @@ func main() {
 			}
 		}
 		sum.Count(string(canon), nt)
+		sum.Hist("mix:" + desc.Kind)
 		sum.Hist(fmt.Sprintf("gomaxprocs:%d", desc.Procs))
 		sum.Hist(fmt.Sprintf("goroutines:%d-%d", desc.Goroutines/4*4, desc.Goroutines/4*4+3))
 		sum.Hist("js_caches:" + desc.JSCache)
@@ -732,7 +852,8 @@ func main() {
 			map[string]interface{}{"gomaxprocs": desc.Procs, "goroutines": desc.Goroutines, "node_pool": desc.NodePool, "c0": c0, "c1": c1, "record_node_ids": seqs})
 	}
 	reset()
-	buildAndRunRace(o, sum, o.Count(50, 1500))
+	vh.Done(o)
+	buildAndRunRace(o, sum, o.Count(24, 800))
 	cw.Flush()
 	sum.CaseFiles = cw.Files
 	sum.Write(o)
